@@ -5,6 +5,7 @@ package server
 import (
 	"bytes"
 	"fmt"
+	"github.com/cbeuw/Cloak/internal/common"
 	"github.com/cbeuw/Cloak/internal/vrt/sync"
 	"net"
 	"strings"
@@ -482,6 +483,90 @@ func init() {
 		return vx.RunSched(c, sc, nil)
 	}})
 
+	// redir.realstate: a State built by the server's own InitState (real dialers, real loopback TCP
+	// towards the redirect target), probed right after start-up and again `wait` seconds later: an
+	// unauthenticated peer is relayed at any age of the server.
+	vx.Register(&vx.Scenario{Name: "redir.realstate", Prop: "C09", Run: func(c *vx.Ctx) *vx.Report {
+		rep := &vx.Report{Job: c.Job, Engine: "enum", Outcomes: map[string]int64{}, Exhaustive: true}
+		wait := c.PI("wait", 12)
+		target, err := net.Listen("tcp", "127.0.0.1:0")
+		if err != nil {
+			rep.HarnessError = "cannot open a loopback TCP listener: " + err.Error()
+			return rep
+		}
+		defer target.Close()
+		got := make(chan []byte, 8)
+		go func() {
+			for {
+				tc, err := target.Accept()
+				if err != nil {
+					return
+				}
+				go func() {
+					b := make([]byte, 4096)
+					tc.SetReadDeadline(rtime.Now().Add(20 * rtime.Second))
+					k, _ := tc.Read(b)
+					tc.Write([]byte("TARGET-REPLY"))
+					got <- b[:k]
+					tc.Close()
+				}()
+			}
+		}()
+		pv := make([]byte, 32)
+		for i := range pv {
+			pv[i] = byte(i + 1)
+		}
+		sta, err := InitState(RawConfig{
+			ProxyBook:  map[string][]string{"shadowsocks": {"tcp", "127.0.0.1:9"}},
+			RedirAddr:  target.Addr().String(),
+			PrivateKey: pv,
+		}, common.WorldState{Rand: vWorld().Rand, Now: rtime.Now})
+		if err != nil {
+			rep.HarnessError = "InitState: " + err.Error()
+			return rep
+		}
+		probe := func(when string) string {
+			n := vnet.New()
+			a, b := n.Pair("probe", false)
+			go dispatchConnection(b, sta)
+			req := []byte("GET /" + when + " HTTP/1.1\r\nHost: example.com\r\n\r\n")
+			a.Write(req)
+			select {
+			case g := <-got:
+				if !bytes.Equal(g, req) {
+					return fmt.Sprintf("%s: the redirect target received %q, the peer sent %q", when, g, req)
+				}
+			case <-rtime.After(20 * rtime.Second):
+				return when + ": the peer's request never reached the redirect target"
+			}
+			a.SetReadDeadline(rtime.Now().Add(20 * rtime.Second))
+			buf := make([]byte, 64)
+			k, _ := a.Read(buf)
+			if string(buf[:k]) != "TARGET-REPLY" {
+				return fmt.Sprintf("%s: the peer received %q, the target replied TARGET-REPLY", when, buf[:k])
+			}
+			a.Close()
+			return ""
+		}
+		for _, step := range []struct {
+			name  string
+			sleep int
+		}{{"right after start-up", 0}, {fmt.Sprintf("%d s after start-up", wait), wait}} {
+			rtime.Sleep(rtime.Duration(step.sleep) * rtime.Second)
+			msg := probe(strings.ReplaceAll(step.name, " ", "-"))
+			rep.Executions++
+			rep.Transitions++
+			if msg != "" {
+				rep.Violations = append(rep.Violations, vx.Violation{Clause: "complete-input-is-relayed", Sig: vx.Sig(c.Job, "complete-input-is-relayed"), Msg: msg})
+				rep.Exhaustive = false
+				break
+			}
+			rep.Outcomes["relayed"]++
+		}
+		rep.States = rep.Executions
+		return rep
+	}})
+
 	// redir.target: which address the relay connects to. The configured redirect host, on the
 	// configured port or - when none is configured - on the port the peer contacted; for every sequence
 	// of probes (up to `depth`) arriving on the server's two ports.
@@ -584,6 +669,9 @@ func init() {
 		}
 		jobs = append(jobs, vx.Job{Scenario: "redir.pair", Params: vx.P("first", "badmethod", "second", "get"), Bound: map[bool]int{true: 2, false: 3}[q], BudgetS: 110, Weight: 5},
 			vx.Job{Scenario: "redir.pair", Params: vx.P("first", "baduid", "second", "garbage"), Bound: map[bool]int{true: 2, false: 3}[q], BudgetS: 110, Weight: 5})
+		// a first packet naming a live session of its user but an unknown proxy method is web traffic as well
+		jobs = append(jobs, vx.Job{Scenario: "auth.second", Params: vx.P("transport", "direct"), Weight: 3})
+		jobs = append(jobs, vx.Job{Scenario: "redir.realstate", Params: vx.P("wait", "12"), Weight: 6})
 		jobs = append(jobs, vx.Job{Scenario: "redir.target", Params: vx.P("depth", map[bool]string{true: "3", false: "5"}[q]), Weight: 1})
 		return jobs
 	})
